@@ -51,7 +51,9 @@ def processLine (line : String) : String :=
       -- which hop (if any) is the first one the policy denies among those that would be reached
       let firstDenied := hops.findIdx? (fun h => !hopOK p h)
       let deniedReached := match firstDenied with
-        | some i => i == 0 || (p.redirects && i ≤ n && i ≤ 10 && n == i)
+        -- hop i ≥ 1 is evaluated by checkRedirect only while fewer than 10 requests were made: at i = 10 the client stops
+        -- with the last response before looking at the URL (nothing is sent either way; the outcome is then the 3xx's)
+        | some i => i == 0 || (p.redirects && i ≤ n && i < 10 && n == i)
         | none => false
       let lookupIssue := hops.any (fun h => check p h.scheme h.hostname h.literal h.answers == .lookupError)
       if arrived > n then s!"PROP C16 request-sent-to-denied-hop in={tag} model_sent={n}"
